@@ -29,6 +29,9 @@ def exec_DR(t):
                 x = Fxp(v0, not s, n, f, dtype_notation=cfg); x.resize(signed=s); return x
             if h == 2:
                 x = Fxp(v0, not s, n + 3, f - 1, dtype_notation=cfg); _ = x.dtype; x.resize(s, n, f); return x
+            if h == 8 and cx:
+                # a complex value held by a scaled object (scale and bias belong to the value, not to the format)
+                return Fxp(0j, s, n, f, dtype_notation=cfg, scale=2, bias=0.5)
             if h >= 6:
                 # an object taken out of an array of the format: an element, a slice, an iteration step
                 arr = Fxp([0j, 0j, 0j] if cx else [0.0, 0.0, 0.0], s, n, f, dtype_notation=cfg)
